@@ -23,7 +23,7 @@ ASSUMPTIONS = ['strict instance-file parser in rv/outparse.py']
 
 def plan(tier):
     return {'cases_per_shard': 260 if tier == 'quick' else 5000,
-            'time_cap_s': 45 if tier == 'quick' else 560}
+            'time_cap_s': 90 if tier == 'quick' else 560}
 
 
 def run_case(cs, ctx):
